@@ -1,5 +1,6 @@
 import Eav.Model
 import Eav.Lemmas.Ip6Lower
+import Eav.Lemmas.IpSpec
 import Eav.Props.C01
 import Eav.Props.Tie.Errors
 /-!
@@ -347,6 +348,102 @@ theorem literal_accepted_record (b : Build) (l d : List Nat) (v4f v6f : Bool) (l
     (h : checkIp d = .ok (0, v4f, v6f, lit')) :
     literalPart b l d = .ok (okResult b 0 0 v4f v6f false l lit') := by
   unfold literalPart; rw [h]; rfl
+
+
+/-! ### the executable forms evaluated by the S stream (`sI` op) are these grammars -/
+
+theorem literal_frame (d : List Nat) (f : List Nat → Bool) :
+    (match d with
+      | 91 :: rest => if rest.getLast? != some 93 then false else f rest.dropLast
+      | _ => false) = true ↔ ∃ inner, d = 91 :: inner ++ [93] ∧ f inner = true := by
+  cases d with
+  | nil => simp
+  | cons x rest =>
+    by_cases hx : x = 91
+    · subst hx
+      simp only
+      constructor
+      · intro h
+        by_cases hl : rest.getLast? = some 93
+        · have hne : (rest.getLast? != some 93) = false := by simp [hl]
+          rw [hne] at h
+          simp only [Bool.false_eq_true, if_false] at h
+          exact ⟨rest.dropLast, by rw [List.cons_append, dropLast_append_of_getLast? rest 93 hl], h⟩
+        · have hne : (rest.getLast? != some 93) = true := by simpa using hl
+          rw [hne] at h; simp at h
+      · rintro ⟨inner, hd, hf⟩
+        simp only [List.cons_append, List.cons.injEq, true_and] at hd
+        subst hd
+        simp [hf]
+    · constructor
+      · intro h
+        split at h
+        · rename_i heq; simp only [List.cons.injEq] at heq; exact absurd heq.1 hx
+        · cases h
+      · rintro ⟨inner, hd, _⟩
+        simp only [List.cons_append, List.cons.injEq] at hd
+        exact absurd hd.1 hx
+
+theorem literalUpper_iff (d : List Nat) : literalUpper d = true ↔ IsLiteralUpper d := by
+  unfold literalUpper IsLiteralUpper
+  refine (literal_frame d (fun inner => v4 inner || v6_4291 inner || (lowerAll (inner.take 5) == tagLower && v6_4291 (inner.drop 5)))).trans ?_
+  constructor
+  · rintro ⟨inner, hd, h⟩
+    refine ⟨inner, hd, ?_⟩
+    simp only [Bool.or_eq_true, Bool.and_eq_true, beq_iff_eq] at h
+    rcases h with (h | h) | ⟨ht, ha⟩
+    · exact Or.inl h
+    · exact Or.inr (Or.inl ((v6_4291_iff _).mp h))
+    · exact Or.inr (Or.inr ⟨inner.take 5, inner.drop 5, (List.take_append_drop 5 inner).symm, ht, (v6_4291_iff _).mp ha⟩)
+  · rintro ⟨inner, hd, h⟩
+    refine ⟨inner, hd, ?_⟩
+    simp only [Bool.or_eq_true, Bool.and_eq_true, beq_iff_eq]
+    rcases h with h | h | ⟨tag, a, rfl, ht, ha⟩
+    · exact Or.inl (Or.inl h)
+    · exact Or.inl (Or.inr ((v6_4291_iff _).mpr h))
+    · right
+      have hl : tag.length = 5 := by
+        have := congrArg List.length ht
+        simpa [tagLower] using this
+      have e1 : (tag ++ a).take 5 = tag := by rw [← hl]; exact List.take_left
+      have e2 : (tag ++ a).drop 5 = a := by rw [← hl]; exact List.drop_left
+      rw [e1, e2]
+      exact ⟨ht, (v6_4291_iff _).mpr ha⟩
+
+theorem literalLower_iff (d : List Nat) : literalLower d = true ↔ IsLiteralLower d := by
+  unfold literalLower IsLiteralLower
+  refine (literal_frame d (fun inner => (v4Snum inner && firstOctetNonZero inner) || (inner.take 5 == tagRfc && v6_5321 (inner.drop 5)))).trans ?_
+  constructor
+  · rintro ⟨inner, hd, h⟩
+    refine ⟨inner, hd, ?_⟩
+    simp only [Bool.or_eq_true, Bool.and_eq_true, beq_iff_eq] at h
+    rcases h with h | ⟨ht, ha⟩
+    · exact Or.inl (by simp [quad5321, h.1, h.2])
+    · refine Or.inr ⟨inner.drop 5, ?_, (v6_5321_iff _).mp ha⟩
+      rw [← ht]; exact (List.take_append_drop 5 inner).symm
+  · rintro ⟨inner, hd, h⟩
+    refine ⟨inner, hd, ?_⟩
+    simp only [Bool.or_eq_true, Bool.and_eq_true, beq_iff_eq]
+    rcases h with h | ⟨a, rfl, ha⟩
+    · simp only [quad5321, Bool.and_eq_true] at h; exact Or.inl h
+    · right
+      have e1 : (tagRfc ++ a).take 5 = tagRfc := List.take_left (l₁ := tagRfc)
+      have e2 : (tagRfc ++ a).drop 5 = a := List.drop_left (l₁ := tagRfc)
+      rw [e1, e2]
+      exact ⟨rfl, (v6_5321_iff _).mpr ha⟩
+
+/-- `literalIsV4` (the family the S stream expects) is `v4` of the bytes between the brackets -/
+theorem literalIsV4_eq (inner : List Nat) : literalIsV4 (91 :: inner ++ [93]) = v4 inner := by
+  simp [literalIsV4]
+
+/-- the three theorems once more, against the executable forms -/
+theorem literal_sandwich (d : List Nat) (hn : NulFree d) (hh : d.head? = some 91) :
+    (∀ v4f v6f l, checkIp d = .ok (0, v4f, v6f, l) → literalUpper d = true ∧ v4f = literalIsV4 d ∧ v6f = !literalIsV4 d) ∧
+    (literalLower d = true → ∃ v4f v6f l, checkIp d = .ok (0, v4f, v6f, l)) := by
+  refine ⟨fun v4f v6f l h => ?_, fun h => literal_lower d hn ((literalLower_iff d).mp h)⟩
+  refine ⟨(literalUpper_iff d).mpr (literal_upper d hn hh v4f v6f l h), ?_⟩
+  obtain ⟨inner, hd, _, h4, h6⟩ := literal_family d hn hh v4f v6f l h
+  rw [hd, literalIsV4_eq]; exact ⟨h4, h6⟩
 
 /-! ### the hypotheses are satisfiable, and the bounds are not vacuous -/
 example : IsLiteralLower [91, 49, 46, 50, 46, 51, 46, 52, 93] :=              -- [1.2.3.4]
